@@ -452,14 +452,14 @@ const barsRuleCommon = "history of (key,sub key,inc) samples (profiles pos/zero/
 var barsGroupedSpec = pbt.Spec[BarsCase]{
 	Property: "C14", Name: "bargraph-grouped",
 	Rule:   barsRuleCommon + ". Grouped, x scale linear/log2/log10: line of (row i, sub key j) shows the key (j=0), a bar and formatter(value); bars <= 50 cells, non-decreasing in the value over the whole render, empty for values <= 0, proportional on the linear scale, full for the largest value ever shown",
-	Budget: pbt.Budget{Quick: 16000, Thorough: 400000},
+	Budget: pbt.Budget{Quick: 32000, Thorough: 600000},
 	Gen:    genBars(false), Check: heapGuard(checkBarsCase), Watchdog: caseWatchdog, Classify: classifyBars,
 }
 
 var barsStackedSpec = pbt.Spec[BarsCase]{
 	Property: "C14", Name: "bargraph-stacked",
 	Rule:   barsRuleCommon + ". Stacked (linear only, as the command enforces): line i shows the key, one run per sub key (group colour, or hex digit without colour) and formatter(row total); for rows without negative part and without int64 overflow: bar <= 50 cells, parts non-decreasing in their value over the whole render, empty for values <= 0, proportional within one cell, row bars grow with the total (up to one cell per part), the largest total ever shown fills the width (up to one cell per part). Rows with a negative part: crash-only",
-	Budget: pbt.Budget{Quick: 16000, Thorough: 400000},
+	Budget: pbt.Budget{Quick: 32000, Thorough: 600000},
 	Gen:    genBars(true), Check: heapGuard(checkBarsCase), Watchdog: caseWatchdog, Classify: classifyBars,
 }
 
